@@ -79,8 +79,12 @@ Inv_DumpStable      == i > 0 => LET u == RoundTrip(T, Dev) IN IsErr(u) \/ DumpSt
 \* encoded form, some child omits a flag because of the enclosing entry
 RECURSIVE AnyForm(_, _)
 AnyForm(sd, f) == sd.form = f \/ \E j \in 1..Len(sd.ch) : AnyForm(sd.ch[j][2], f)
+RECURSIVE Omits(_, _)
+Omits(n, sd) == \/ (n.pr # PrNone /\ sd.pr = PrNone) \/ (n.del # "N" /\ sd.del = "N")
+                \/ (n.anew # "N" /\ sd.anew = "N") \/ (n.safe # "N" /\ sd.safe = "N")
+                \/ \E j \in 1..Len(n.ch) : Omits(n.ch[j][2], sd.ch[j][2])
 Witness == i > 0 /\ AnyForm(Dump(T, Dev), "md") /\ AnyForm(Dump(T, Dev), "tag")
-           /\ RoundTrip(T, Dev) # T
+           /\ Omits(T, Dump(T, Dev)) /\ Interchangeable(T, RoundTrip(T, Dev))
 NotWitness == ~Witness
 
 ----------------------------------------------------------------------------
